@@ -259,7 +259,11 @@ func scenC19K(w *vsim.World, spec *vsim.Spec) {
 		uuid := owner + "-gj3su-" + mk(15, false)
 		var r req
 		r.remote = remote
-		switch k := w.Choose("token-kind", 8); k {
+		switch k := w.Choose("token-kind", 11); k {
+		case 8, 9, 10: // unsalted secrets that consist of hex digits only, of any length but 40
+			s := mk([]int{41, 39, 56}[k-8], true)
+			secrets = append(secrets, s)
+			r.token, r.kind = "v2/"+uuid+"/"+s, fmt.Sprintf("v2-hex-%d", len(s))
 		case 0:
 			s := mk(50, false)
 			secrets = append(secrets, s)
